@@ -13,11 +13,38 @@
 
 package utils
 
-import apiv1 "github.com/attestantio/go-eth2-client/api/v1"
+import (
+	"strings"
+
+	apiv1 "github.com/attestantio/go-eth2-client/api/v1"
+)
 
 // IsSyncCommitteeEligible returns true if the validator is in a state that is eligible for Sync Committee duty.
 func IsSyncCommitteeEligible(state apiv1.ValidatorState) bool {
 	return state == apiv1.ValidatorStateActiveOngoing || state == apiv1.ValidatorStateActiveExiting ||
 		state == apiv1.ValidatorStateExitedUnslashed || state == apiv1.ValidatorStateActiveSlashed ||
 		state == apiv1.ValidatorStateExitedSlashed || state == apiv1.ValidatorStateWithdrawalPossible
+}
+
+// HasEndAnchor returns true if the regular expression ends with an end-of-text anchor,
+// that is a "$" that is not escaped by a backslash.
+func HasEndAnchor(expr string) bool {
+	if !strings.HasSuffix(expr, "$") {
+		return false
+	}
+	escapes := 0
+	for i := len(expr) - 2; i >= 0 && expr[i] == '\\'; i-- {
+		escapes++
+	}
+
+	return escapes%2 == 0
+}
+
+// TrimEndAnchor removes the end-of-text anchor of the regular expression, if it has one.
+func TrimEndAnchor(expr string) string {
+	if HasEndAnchor(expr) {
+		return expr[:len(expr)-1]
+	}
+
+	return expr
 }
